@@ -150,7 +150,7 @@ def run(shard, ctx):
     if shard["kind"] == "cli":
         run_cli(shard, ctx)
     else:
-        workloads.run_remap_batch(shard, ctx, kinds=tuple(shard["kinds"]), oracle=oracle, opts={"strands": [1, -1]})
+        workloads.run_remap_batch(shard, ctx, kinds=tuple(shard["kinds"]), oracle=oracle, opts={"strands": [1, -1] if shard["index"] % 3 else None, "terminal_gaps": True})
 
 
 def replay(case, ctx):
@@ -178,6 +178,7 @@ def gates(c, tier):
         "cases-with:head-to-head-or-tail-to-tail-junction": 500,
         "metamorphic:both-reversed": 3000,
         "label:in:1bp-contig": 100,
+        "label:in:gap-only-scaffold": 30,
         "cli:ok": 20,
         "cli:with-haplotigs": 3,
         "cli:cases-with-haplotig-slivers": 20,
